@@ -121,6 +121,9 @@ def gen(tier, seed):
             m = mk(f'm{n:04d}', f'{name} + {{{", ".join(by)}}}/spelling=' + ('one list' if k == 0 else f'separate attributes, rotation {k}'), p_c15.make_xf(by, ti), sp)
             if m is not None:
                 mods.append(m); n += 1
+    # literal defaults: `Default = lit`, `expression = lit`, `expr(lit)`, ... must all route the literal the same way
+    from . import p_c08
+    mods += p_c08.literal_modules(len(mods), tier)
     return mods
 
 
